@@ -879,14 +879,19 @@ func init() {
 			if n%8 == 7 {
 				// storage errors instead of contention: one client on SQLite with faults inside the database driver; an update the
 				// store failed must have no effect, one it acknowledged must not be lost
-				p.Cfg.Store, p.Cfg.Seam, p.Cfg.Clients, p.Cfg.Strategy = "sqlite", "driver", 1, "uniform"
+				// (half of these runs keep two clients: contention AND storage errors - what one client does about a failed commit
+				// happens while the other one waits for the connection)
+				nc := 1 + r.IntN(2)
+				p.Cfg.Store, p.Cfg.Seam, p.Cfg.Clients, p.Cfg.Strategy = "sqlite", "driver", nc, "uniform"
 				for i := range p.Ops {
-					p.Ops[i].C = 0
+					p.Ops[i].C = p.Ops[i].C % nc
 				}
 				for occ := 0; occ < 2*len(p.Ops); occ++ {
 					for _, call := range []string{"drv.Begin", "drv.Query", "drv.Next", "drv.Exec", "drv.Commit", "drv.Commit", "drv.Rollback"} {
-						if r.Chance(0.07) {
-							p.Faults = append(p.Faults, Fault{At: fmt.Sprintf("c0:%s#%d", call, occ), Kind: drvKind(r)})
+						for c := 0; c < nc; c++ {
+							if r.Chance(0.07) {
+								p.Faults = append(p.Faults, Fault{At: fmt.Sprintf("c%d:%s#%d", c, call, occ), Kind: drvKind(r)})
+							}
 						}
 					}
 				}
